@@ -70,7 +70,7 @@ fn pending_combos() -> Vec<Vec<(usize, usize)>> {
 
 fn gen(ctx: &Ctx) -> Vec<Script> {
     let mut v = Vec::new();
-    let mixes: u64 = if ctx.n > 0 { ctx.n } else if ctx.thorough { 16 } else { 1 };
+    let mixes: u64 = if ctx.n > 0 { ctx.n } else if ctx.thorough { 64 } else { 1 };
     for mix in 0..mixes {
         for pos in 0..7 {
             for &kind in &KINDS_ALL {
